@@ -48,7 +48,7 @@ def fresh_float(base):
 
 # dtype codes: 'f' float, 'i' int, 'b' bool, 'u16'/'u32' bitvectors
 def dtype_sort(dt):
-    if dt == "i":
+    if dt in ("i", "s"):   # "s": array of strings, each an interned token (only == / != are supported on strings)
         return z3.IntSort()
     if dt == "b":
         return z3.BoolSort()
@@ -135,6 +135,19 @@ class SStr:
 
 
 _interned = {}
+_STRCAT = None
+
+
+def str_cat(a, b):
+    """a + b on strings: concrete when both are, else an uninterpreted function of the two tokens (only congruence is known)"""
+    global _STRCAT
+    if isinstance(a, str) and isinstance(b, str):
+        return a + b
+    if _STRCAT is None:
+        _STRCAT = z3.Function("strcat", z3.IntSort(), z3.IntSort(), z3.IntSort())
+    ta = a.tok if isinstance(a, SStr) else z3.IntVal(intern_str(a))
+    tb = b.tok if isinstance(b, SStr) else z3.IntVal(intern_str(b))
+    return SStr(_STRCAT(ta, tb))
 
 
 def intern_str(s):
@@ -147,7 +160,7 @@ def interned_strings():
     return dict(_interned)
 
 
-_ARR_RE = re.compile(r"^(f32|f64|f|r32|r64|i16|i32|i64|i|u16|u32|u8|bool)\[(.*)\]$")
+_ARR_RE = re.compile(r"^(f32|f64|f|r32|r64|i16|i32|i64|i|u16|u32|u8|bool|str)\[(.*)\]$")
 
 
 def parse_type(t):
@@ -155,7 +168,7 @@ def parse_type(t):
     if isinstance(t, dict):
         if "@attrs" in t:
             return ("objattrs", t["@attrs"])
-        if "vars" in t or "coords" in t or "attrs" in t or "sizes" in t:
+        if "vars" in t or "coords" in t or "attrs" in t or "sizes" in t or "dims" in t:
             return ("ds", t)
         return ("dict", t)
     if isinstance(t, (tuple, list)):
@@ -172,6 +185,7 @@ def parse_type(t):
         if base in ("f32", "f64", "f") and dims.strip().isdigit():
             return ("flist", int(dims))
         nd = dims.count(":")
-        dt = "f" if base[0] == "f" else "r" if base[0] == "r" else "b" if base == "bool" else base if base in ("u16", "u32") else "i"
+        dt = ("s" if base == "str" else "f" if base[0] == "f" else "r" if base[0] == "r" else "b" if base == "bool"
+              else base if base in ("u16", "u32") else "i")
         return ("arr", dt, nd, base)
     raise ValueError("bad type " + repr(t))
